@@ -655,6 +655,15 @@ func (w *c15World) checkState(step int, e c15Ev) *c15Viol {
 			p := st.MinDialer
 			if p == nil && len(st.Entries) > 0 {
 				w.cnt("best_nil_with_alive_entries_recorded")
+				// Without a cached best every selection falls back to the plain minimum, which knows no
+				// tolerance: the choice then flips for any improvement however small. A latency policy
+				// must therefore hold a best node whenever an alive node has a measurement.
+				for _, en := range st.Entries {
+					if w.measured(en.Dialer, t) {
+						return w.viol(step, "no-best-although-measured-node-alive", fmt.Sprintf("%s tolerance %v: the set caches no best node although alive %s has a measurement (sorting latency %v, cached threshold %v) after %s; selections fall back to the plain minimum and ignore the tolerance",
+							pol.Policy, tol, w.name(en.Dialer), en.SortingLatency, st.MinSorting, e.String()), gi, t)
+					}
+				}
 			}
 			sortOf := func(d *dialer.Dialer) time.Duration { return st.Entries[st.Index[d]].SortingLatency }
 			if p != nil && w.measured(p, t) {
